@@ -15,7 +15,7 @@ from vlib.framework import Engine, RunResult
 from vlib import progs, decoders
 
 TYPES = ["hex", "srec", "elf", "bin", "wdc", "uf2", "amiga", "macho"]
-DIMS = ["clock", "heap", "stack", "chunk", "flags", "name", "type", "history-main", "history-api", "repeat", "heap+stack+clock", "build"]
+DIMS = ["clock", "heap", "stack", "chunk", "flags", "name", "type", "history-main", "history-api", "repeat", "heap+stack+clock", "build", "flags+name"]
 
 
 def strip_s0(b):
@@ -59,10 +59,11 @@ class C13(Engine):
                 p["stack_seed"] = rng.u64()
             if dim == "chunk":
                 p["chunk_seed"] = rng.u64() | 1
-            if dim == "flags":
+            if "flags" in dim:
                 p["flags"] = rng.subset(["-l", "-q", "-dump_symbols", "-dump_macros"], 1, 2) or ["-l"]
-            if dim == "name":
-                p["out"] = rng.pick(["other.bin", "x", "dir/deep/name.with.dots.out", "OUT.HEX", "a.asm.out", "o" * 200 + ".elf"])
+            if "name" in dim:
+                p["out"] = rng.pick(["other.bin", "x", "dir/deep/name.with.dots.out", "OUT.HEX", "a.asm.out", "o" * 200 + ".elf",
+                                     "firmware", "dir.d/out", ".hidden", "a.b.c"])
             if dim == "type":
                 p["type"] = rng.pick([t for t in ("hex", "srec", "elf", "bin", "wdc", "uf2") if t != typ])
             if dim == "history-main":
@@ -228,7 +229,7 @@ class C13(Engine):
                 a, b = strip_s0(a), strip_s0(b)
             if a != b:
                 res.viol("%s:output-differs:%s" % (dim, typ), first_diff=first_diff(a, b), pert={k: v for k, v in p.items() if k != "history"})
-            if "flags" in p and "-l" in p["flags"]:
+            if "flags" in p and "-l" in p["flags"] and dim == "flags":
                 lst = name.rsplit(".", 1)[0] + ".lst" if "." in name[1:] else name + ".lst"
                 if outfile(o, lst) is None:
                     res.viol("flags:listing-not-produced", pert=p, delta=[pp for pp, k, d in o.delta])
